@@ -13,6 +13,8 @@ CONSTANTS
   MaxCrash = 0
   MaxRestart = 0
   MaxObst = 0
+  MaxEncFail = 0
+  BufFloor = 99
   Hist = FALSE
 SPECIFICATION TSpec
 INVARIANTS GapFreeSuffix NotLessThanIdeal LenExact AtMostOneRoll
